@@ -19,7 +19,7 @@ from wannierberri.result.tabresult import TABresult
 
 PROPERTY = "C03"
 LEVEL = "exploration"
-BUDGET = dict(quick=45, thorough=900)
+BUDGET = dict(quick=35, thorough=900)
 MAX_RUNS = dict(quick=3000, thorough=10 ** 7)
 RULE = ("each run draws a system (random Hermitian 2-4 Wannier functions with external terms, Haldane (2D, C3z), chiral 3D "
         "model (C3z)), a k-grid N, calculators (static Fermi-sea / Fermi-surface, tetrahedron variants, dynamic, a stub on the "
